@@ -20,6 +20,7 @@ VALUES = [Fraction(x) for x in ["0", "1", "2", "3", "-1", "-2", "5", "10"]] + \
          [Fraction(1, 2), Fraction(3, 2), Fraction(1, 4), Fraction(-1, 2), Fraction(7, 2)]
 PARAMS = ["?x", "?y", "?v", "?u", "?q", "?r"]
 QVARS = ["?z", "?w"]
+QVARS_LONG = ["?xz", "?yw"]
 
 
 def feats(**kw):
@@ -91,6 +92,8 @@ class FGen:
         # in 4 cases of 10 the eliminable-looking equalities are over a difference, (= (- A B) 0): nothing to eliminate with
         self.minus_eq = bool(ft.get("nested_monomials")) and ch.side("minus-eq").flag(0.4)
         self.comp = ch.side("companion")
+        # in 3 cases of 10 the quantified variables are named like a parameter plus a letter (?xz next to ?x)
+        self.qvars = QVARS_LONG if ch.side("qvars").flag(0.3) else QVARS
 
     def terms(self, scope, typ):
         out = [v for v, t in scope if self.types.is_sub(t, typ)]
@@ -163,7 +166,20 @@ class FGen:
             b = ch.choice(["2", "4", "0.5", "-2", "5"]) if ch.flag(0.7) else (self.fterm(scope) or "2")
         else:
             b = self.expr(scope, depth - 1)
+            if self.comp.flag(0.15):
+                # the same function term twice in one expression, (* (f ?x) (f ?x)) or (+ (- (f ?x) 1) (f ?x))
+                fl = self.first_fluent(a)
+                if fl is not None:
+                    b = list(fl)
         return [op, a, b]
+
+    @staticmethod
+    def first_fluent(e):
+        if isinstance(e, str):
+            return None
+        if e[0] in pddl.NUM_OPS and len(e) == 3:
+            return FGen.first_fluent(e[1]) or FGen.first_fluent(e[2])
+        return e
 
     @staticmethod
     def has_fluent(e):
@@ -207,9 +223,15 @@ class FGen:
                 def mono(t):
                     c1 = ch.choice(["0.29", "0.57", "0.07", "1.13", "0.5", "2.25", "0.35", "1.1"])
                     c2 = ch.choice(["100", "10", "2", "5", "3", "100"])
+                    if self.comp.flag(0.3):
+                        c2 = self.comp.choice(["-2", "-10", "-1", "-5"])        # a negative coefficient
                     return ch.choice([["*", ["*", t, c1], c2], ["*", c2, ["*", t, c1]], ["*", c1, ["*", t, c2]],
                                       ["*", t, c1], ["*", c2, t], t])
-                return [op, mono(ft), mono(other)]
+                left = mono(ft)
+                if op != "=" and self.comp.flag(0.3) and left is not ft:
+                    # a lone product against a number, (<= (* -2 (f ?x)) -6)
+                    return [op, left, self.comp.choice(["-6", "3", "0", "2.5", "-1.5", "12"])]
+                return [op, left, mono(other)]
         if simple:
             rhs = self.number(True) if ch.flag(0.6) else (self.fterm(scope) or self.number(True))
             if rhs == ft:
@@ -287,7 +309,7 @@ class FGen:
     def forall_pre(self, scope):
         simple = not self.ft["rich_nested_numeric"]
         used = {v for v, _ in scope}
-        qv = [q for q in QVARS if q not in used][0]
+        qv = [q for q in self.qvars if q not in used][0]
         qt = self.qtype()
         sc2 = scope + [(qv, qt)]
         body = self.leaves(sc2, 1, 2, simple)
@@ -372,7 +394,7 @@ class FGen:
 
     def forall_eff(self, scope):
         used = {v for v, _ in scope}
-        qv = [q for q in QVARS if q not in used][0]
+        qv = [q for q in self.qvars if q not in used][0]
         qt = self.qtype()
         ps = self.ft.get("p_shadow", 0.0)
         if ps and scope and self.ch.flag(ps):
